@@ -38,6 +38,7 @@ type World struct {
 	db   *ContractDB
 	spec map[Mode]string
 	specOnly *concreteRun
+	virtual  bool // number program points over the inlining tree (fallback, exec.go)
 }
 
 var specText = map[Mode]string{}
@@ -134,6 +135,7 @@ func (w *World) verifyFunction(key string, fc *FuncContract, mode Mode) (res *Fu
 		return
 	}
 	e := w.newEng(mode)
+	e.virtual = w.virtual
 	e.fn, e.fc = fn, fc
 	e.weakB2I = fc != nil && fc.Options["weakb2i"]
 	defer func() {
@@ -227,6 +229,9 @@ func (w *World) verifyFunction(key string, fc *FuncContract, mode Mode) (res *Fu
 		}
 		for _, k := range f.retOrd {
 			pts[fmt.Sprintf("return#%d", k)] = true
+		}
+		for _, n := range e.vcall { // points inside inlined helpers (virtual numbering)
+			pts[n] = true
 		}
 		chk := func(pt, what string) {
 			pt = strings.TrimPrefix(strings.TrimPrefix(pt, "after "), "before ")
@@ -746,7 +751,8 @@ func discharge(obls []*Obligation, cfg dischargeCfg) {
 }
 
 var solverErrors int32
-var settledFailures int32
+var settledFailures int32 // unused counter kept for the second attempt reset
+var settledByFunc sync.Map // top-level function -> *int32: failures whose verdict is final
 
 func dischargeOne(o *Obligation, cfg dischargeCfg) {
 	if atomic.LoadInt32(&solverErrors) >= 3 {
@@ -820,7 +826,7 @@ func dischargeOne(o *Obligation, cfg dischargeCfg) {
 		// the long retry guards against spurious failures under load; once a
 		// few obligations have definitely failed the verdict of the run is
 		// settled and the remaining failures are reported without it
-		if r.Status != "unsat" && cfg.retryS > cfg.timeoutS && atomic.LoadInt32(&settledFailures) < 3 {
+		if r.Status != "unsat" && cfg.retryS > cfg.timeoutS && atomic.LoadInt32(settledCounter(o)) < 3 {
 			for _, stg := range stages {
 				if !pending[stg] {
 					continue
@@ -838,7 +844,7 @@ func dischargeOne(o *Obligation, cfg dischargeCfg) {
 	}
 	o.Status, o.Solver, o.TimeS, o.Answers = r.Status, r.Solver, r.TimeS, r.Answers
 	if r.Status != "unsat" {
-		atomic.AddInt32(&settledFailures, 1)
+		atomic.AddInt32(settledCounter(o), 1)
 	}
 	if r.Status == "sat" {
 		o.Model = r.Output
@@ -939,4 +945,16 @@ func comparedWithNil(fn *ssa.Function, p *ssa.Parameter) bool {
 		}
 	}
 	return false
+}
+
+// settledCounter: failures are counted per function under verification, so
+// that a function that really fails does not take the long retry away from
+// the slow obligations of another one.
+func settledCounter(o *Obligation) *int32 {
+	k := o.Func
+	if i := strings.Index(k, "/"); i >= 0 {
+		k = k[:i]
+	}
+	v, _ := settledByFunc.LoadOrStore(k, new(int32))
+	return v.(*int32)
 }
